@@ -28,6 +28,11 @@ theorem protocol_version_is_4 : pv = 4 := by decide
 /-- the source re-checks the closed flag after `store.set` (so `closed_admits_none` is about the code as it is) -/
 theorem recheck_in_source : Gen.eioNewSocketRechecksClosed = true := by decide
 
+/-- and `Server.Close` sets the flag before it takes the snapshot of the sessions it closes: the model's `close` label
+    (flag, then sweep) is the order of the source; with the sweep first, a handshake served during the sweep passes both
+    checks and is never closed -/
+theorem close_sets_flag_first : Gen.eioCloseSetsFlagFirst = true := by decide
+
 /-- every request in one of the invalid classes is answered 400 with a protocol error code and has
     no effect (no session created, none touched); a closed server answers 503 -/
 theorem invalid_request_rejected (closed : Bool) (r : Req) (h : r.invalid pv = true) :
